@@ -152,3 +152,21 @@ claim('C30', 'other',
       'static analysis: decision facts of BoundStatement.bind by CFG dataflow (missing / extra / UNSET / None x protocol version), dominance of the '
       'routing-key refusal over the UNSET append, component layout of composite routing keys, sibling rule Statement vs BoundStatement, partition-key order '
       'of derived routing indexes', 'CFG dataflow with branch facts + layout constant folding + sibling cross-check', _TB, 'DESIGN.md section 5 C30')
+
+claim('C31', 'proof',
+      'lock obligations (single writer set of self.last, single locked call site with clock and last read inside the region) plus exhaustive enumeration '
+      'of the two rows of the comparison-only function _next_timestamp with the order assertions (> last, >= now, stored == returned) discharged per row',
+      'who-may-write + lexical lock regions + exhaustive path enumeration of a comparison-only function',
+      'trusted: CPython ast, sa/cfg.py path enumeration; assumes threading.Lock gives mutual exclusion and x + positive literal > x', 'DESIGN.md section 5 C31')
+claim('C32', 'other',
+      'static analysis: index hand-over on the three completion arms and ordering by index, started-count advanced before starting (dataflow), at most '
+      'one new start per completion under the condition (path counting), fail-fast raises, once-latch contract for completions on a call-graph cycle',
+      'CFG dataflow + call-cycle detection + argument-role checks', _TB, 'DESIGN.md section 5 C32')
+claim('C33', 'other',
+      'static analysis (narrow): paired-state rule for OrderedMap (_items/_index), serialized-key discipline, insertion guard facts of SortedSet.add, '
+      'accumulator-feedback rule of the multi-operand operations, in-place operator shape. Set/map algebra over operation sequences is not decided',
+      'who-may-write pairing + CFG branch facts + syntax-directed rules', _TB, 'DESIGN.md section 5 C33')
+claim('C34', 'other',
+      'static analysis (narrow): two-sided interval validation of Time by path enumeration, folded unit constants, epoch-offset agreement, the min/max '
+      'UUID literals folded through uuid_from_time\'s own packing expressions against the LOWEST/HIGHEST constants, Date print/parse format. Calendar and '
+      'float arithmetic are not decided', 'path enumeration + constant folding of packing expressions', _TB, 'DESIGN.md section 5 C34')
